@@ -4,6 +4,7 @@ import LyModel.Props.C11Range
 #print axioms LyModel.Props.C11.iff_compile_correct_partial
 #print axioms LyModel.Props.C11.iff_compile_correct_fixed
 #print axioms LyModel.Props.C11.iff_compile_sound
+#print axioms LyModel.Props.C11.iff_compile_fails_only_by_oob
 #print axioms LyModel.Props.C11.iff_rejects_ungrammatical_fails
 #print axioms LyModel.Props.C11.iff_rejects_ungrammatical_partial
 #print axioms LyModel.Props.C11.iff_getop_setop
